@@ -665,8 +665,11 @@ class MultiRCUUtilizationContext(TwoPhaseWithBarrierContext, PipelineContextTool
             self.fingerprints[job] = job_fprint
 
     def drain(self) -> list[TraceEvent]:
-        # run fingerprint-similarity check for all jobs
-        self.update_fprint_matches()
+        # run fingerprint-similarity check for all jobs: once, when the collection phase ends.
+        # The context is registered with two stages; in the second drain the job fingerprints have
+        # already been replaced by their tables and must not be matched against themselves.
+        if self.collection_phase():
+            self.update_fprint_matches()
         return super().drain()
 
     def generate_fprint_jobhash(self, event: TraceEvent) -> int:
